@@ -192,6 +192,13 @@ func (r *run) Step(ev explore.Event) []explore.Violation {
 					}
 					for name, sub := range moved {
 						r.boxes[name] = sub
+						delete(r.delSub, name) // a mailbox exists under this name again
+					}
+					// connector-created mailboxes keep their remote id under the new name
+					for id, name := range r.remote {
+						if name == o || strings.HasPrefix(name, o+del) {
+							r.remote[id] = n + strings.TrimPrefix(name, o)
+						}
 					}
 				}
 			}
@@ -279,6 +286,20 @@ func (r *run) Step(ev explore.Event) []explore.Violation {
 		} else if res.Err == "" {
 			r.broken = "" // an update outside the model was accepted: resynchronise below
 			r.resync()
+			// the remote-id table follows what the update says, and forgets ids whose mailbox is gone
+			switch sp.Kind {
+			case "MailboxDeleted":
+				delete(r.remote, sp.Mbox)
+			case "MailboxCreated", "MailboxUpdated":
+				if _, ok := r.boxes[r.canonName(name)]; ok {
+					r.remote[sp.Mbox] = r.canonName(name)
+				}
+			}
+			for id, n := range r.remote {
+				if _, ok := r.boxes[n]; !ok {
+					delete(r.remote, id)
+				}
+			}
 		}
 	}
 	for _, s := range r.sess {
